@@ -1,8 +1,9 @@
 """C12 — assemble / clear / backport / delete / write round trips of `Mesh`.
 
-Cases are random histories over {add, delete, assemble, clear, backport, move vertex, modify_patch,
-set_default_patch, merge_patches, write} on 1..5 single-cell hexahedra of a jittered lattice (random
-corner numbering, patches, projections, arcs, count-only chops that agree on shared edges).
+Cases are random histories over {add, delete, assemble, clear, backport, move / translate vertex, modify_patch,
+set_default_patch, merge_patches, add_geometry, write} on 1..5 single-cell hexahedra of a lattice (random
+corner numbering, patches, projections, arc / spline / polyLine / project edges, count-only chops that agree
+on shared edges).  The model works on the exact rational coordinates and prints them with `%.8f`.
 
 * correspondence: the history is replayed by the Lean state machine `CBV.C12` (c12.hist); every write
   (canonical form of the file, or the error) and every backport (corner points of all operations) is compared;
@@ -274,15 +275,17 @@ class C12(core.Check):
         "least one successful write; distinct = different history or model."
     )
     assumptions = [
-        "points are abstracted to location ids: distinct points of a case are at least 1e-3 apart (TOL = 1e-7)",
+        "points are exact rational coordinates; same vertex iff equal coordinates: points closer than TOL are sent as one triple, distinct points of a case are at least 1e-3 apart (TOL = 1e-7)",
         "every operation carries chops on all three axes (count-only); propagation between blocks is C01/C02/C04",
         "python list/OrderedDict/set semantics of the modelled methods are validated by correspondence, not verified",
         "arc edges of the cases are valid (end points distinct, not collinear)",
     ]
     partial_note = (
-        "theorems are about the abstract state machine CBV.C12 (count-only chops on every axis, arcs as the only curved "
-        "edges, no geometry dictionary, flat depot); float formatting, graded chops and propagation are outside the model "
-        "and only covered by the byte-for-byte oracle on the generated histories"
+        "theorems are about the state machine CBV.C12 (rational coordinates with %.8f rendering, arc / spline / polyLine / project edges, "
+        "entities, geometry list, statements of clear / backport / write tied to the source by ast); vertex identity is exact equality "
+        "of coordinates (implementation: within TOL), chops are count-only on every axis, origin / angle / curve edges, size-based or "
+        "graded chops, propagation and an exception inside assemble() are outside the model and only covered by the byte-for-byte "
+        "oracle on the generated histories"
     )
 
     # ------------------------------------------------------------------ generators
@@ -1095,6 +1098,23 @@ class C12(core.Check):
                 out.append({"site": "Mesh.write:unparsable-file", "what": f"call {n}: {e}"})
                 since, last_text = [], text
                 continue
+            # the sections come in the order a blockMeshDict of classy_blocks has: geometry, vertices, blocks, edges, faces,
+            # boundary, defaultPatch, mergePatchPairs
+            where = [
+                (m.start(), name)
+                for name in ("geometry", "vertices", "blocks", "edges", "faces", "boundary", "defaultPatch", "mergePatchPairs")
+                for m in [re.search(r"^" + name + r"\n[({]\n", text, re.M)]
+                if m
+            ]
+            if [w[0] for w in where] != sorted(w[0] for w in where):
+                out.append(
+                    {
+                        "site": "Mesh.write:section-order",
+                        "what": f"call {n}: sections written in the order {[w[1] for w in sorted(where)]}",
+                        "observed": [w[1] for w in sorted(where)],
+                        "expected": [w[1] for w in where],
+                    }
+                )
             if [[k, v] for k, v in sh["geometry"].items()] != parsed["geometry"]:
                 out.append(
                     {
